@@ -110,7 +110,7 @@ def run(tier):
     ops = sorted(set(c.split(' ')[0] for c in cases))
     v.notes['e1'] = dict(cases=len(cases), per_op={o: sum(1 for c in cases if c.startswith(o + ' ')) for o in ops})
     hs = []
-    for rnd in vf.rounds(tier, 6):
+    for rnd in vf.rounds(tier, 20):
         hs += list(e2(rnd, 64 if quick else 500, 1200 if quick else 6000))
     vf.trace_flow(v, 'LengthPrefixTrace.tla', 'LengthPrefixTrace.cfg', 'lenp', hs, 'lenptrace', flavours=3)
     v.cov['rule'] = ('E0/E1: all cases of the enumerated family (buffer states up to MaxSize, chunk lists up to MaxChunks, length table, capacities around the length, '
